@@ -818,6 +818,9 @@ type c19SharedCase struct {
 	Round    int     `json:"round"`
 	Clients  int     `json:"clients"`
 	Cmds     int     `json:"cmds"`
+	// Tight: no mix of everything - the even clients run a work queue each (RPush, LPop, …), the odd ones a set each
+	// (SAdd, SRem, …), as fast as they can
+	Tight bool `json:"tight,omitempty"`
 }
 
 var c19SharedCmds = []string{"set", "get", "hset", "hget", "hdel", "sadd", "sismember", "srem", "lpush", "rpush", "lpop", "rpop", "zadd", "zscore", "del",
@@ -841,6 +844,11 @@ func runC19Shared(c *c19SharedCase) *kvh.Fail {
 			for j := 0; j < c.Cmds; j++ {
 				h := kvh.Hash64([]byte(fmt.Sprintf("c19shared|%d|%d|%d", c.Round, i, j)))
 				cmd := rcmd{C: c19SharedCmds[h%uint64(len(c19SharedCmds))], Key: []byte{byte('A' + i), byte('0' + (h>>8)%3)}}
+				if c.Tight {
+					cmd.C = [][]string{{"rpush", "lpop"}, {"sadd", "srem"}}[i%2][j%2]
+					cmd.Key = []byte{byte('A' + i), '0'}
+					h = uint64(j/2) * 0x10101010101 // the element pushed is the one popped next, the member added the one removed next
+				}
 				switch cmd.C {
 				case "set":
 					cmd.V = []byte(fmt.Sprintf("s%d", (h>>24)%50))
@@ -888,6 +896,9 @@ func c19SharedService(t *testing.T, st *kvh.Stats) {
 		c.Opt.Index = int8(1 + i%3)
 		if i%4 == 1 {
 			c.Opt.FileSize = 4096
+		}
+		if i%3 == 0 {
+			c.Tight, c.Clients, c.Cmds = true, 8, 24000
 		}
 		kvh.SetInFlight(&kvh.InFlight{Property: "C19", Case: func() any { return c }})
 		f := runC19Shared(c)
